@@ -483,6 +483,7 @@ impl<'tcx> Conv<'tcx> {
             }
             hir::ExprKind::Loop(b, _, src, _) => {
                 o.put("k", J::s("loop"));
+                o.put("hid", J::Int(e.hir_id.local_id.as_u32() as i128));
                 o.put(
                     "src",
                     J::s(match src {
@@ -536,8 +537,11 @@ impl<'tcx> Conv<'tcx> {
                 o.put("params", J::Arr(body.params.iter().map(|p| self.pat(p.pat)).collect()));
                 o.put("body", self.expr(body.value));
             }
-            hir::ExprKind::Block(b, _) => {
+            hir::ExprKind::Block(b, label) => {
                 o = self.block(b);
+                if label.is_some() {
+                    o.put("hid", J::Int(e.hir_id.local_id.as_u32() as i128));
+                }
             }
             hir::ExprKind::Assign(l, r, _) => {
                 o.put("k", J::s("assign"));
@@ -578,13 +582,21 @@ impl<'tcx> Conv<'tcx> {
                 }
                 o.put("e", self.expr(inner));
             }
-            hir::ExprKind::Break(_, v) => {
+            hir::ExprKind::Break(dest, v) => {
                 o.put("k", J::s("break"));
+                if let Ok(t) = dest.target_id {
+                    o.put("target", J::Int(t.local_id.as_u32() as i128));
+                }
                 if let Some(x) = v {
                     o.put("e", self.expr(x));
                 }
             }
-            hir::ExprKind::Continue(_) => o.put("k", J::s("continue")),
+            hir::ExprKind::Continue(dest) => {
+                o.put("k", J::s("continue"));
+                if let Ok(t) = dest.target_id {
+                    o.put("target", J::Int(t.local_id.as_u32() as i128));
+                }
+            }
             hir::ExprKind::Ret(v) => {
                 o.put("k", J::s("ret"));
                 if let Some(x) = v {
@@ -994,8 +1006,14 @@ impl Callbacks for Cb {
                 o.put("unsafe_fn", J::Bool(sig.safety().is_unsafe()));
                 let g = tcx.generics_of(did);
                 let mut gp = Vec::new();
+                let mut chain = Vec::new();
                 let mut gcur = Some(g);
                 while let Some(gg) = gcur {
+                    chain.push(gg);
+                    gcur = gg.parent.map(|p| tcx.generics_of(p));
+                }
+                chain.reverse();
+                for gg in chain {
                     for p in gg.own_params.iter() {
                         let k = match p.kind {
                             ty::GenericParamDefKind::Lifetime => "lifetime",
@@ -1004,7 +1022,6 @@ impl Callbacks for Cb {
                         };
                         gp.push(J::obj().set("name", J::s(p.name.as_str())).set("kind", J::s(k)));
                     }
-                    gcur = gg.parent.map(|p| tcx.generics_of(p));
                 }
                 o.put("generics", J::Arr(gp));
             }
